@@ -1181,10 +1181,16 @@ void NifFile::TrimTexturePaths() {
 		// Replace multiple slashes or forward slashes with one backslash
 		tex = std::regex_replace(tex, std::regex("[/\\\\]+"), "\\");
 
-		// Terrain paths get a "Data\" prefix below: remove an existing one first,
+		// Terrain paths get a "Data\" prefix below: set an existing one aside first (it is put back as it was),
 		// so that cleaning an already cleaned terrain path does not change it
-		if (isTerrain)
-			tex = std::regex_replace(tex, std::regex("^\\\\*Data\\\\", std::regex_constants::icase), "");
+		std::string dataPrefix;
+		if (isTerrain) {
+			std::smatch dataMatch;
+			if (std::regex_search(tex, dataMatch, std::regex("^\\\\*Data\\\\", std::regex_constants::icase))) {
+				dataPrefix = tex.substr(dataMatch[0].length() - 5, 5);
+				tex = tex.substr(dataMatch[0].length());
+			}
+		}
 
 		// Search for the first occurrence of "\textures\" (only if "textures\" isn't at the start)
 		std::smatch match;
@@ -1205,7 +1211,10 @@ void NifFile::TrimTexturePaths() {
 
 		// If the path doesn't start with "Data\", add it to the front
 		if (isTerrain && is_relative_path(tex)) {
-			tex = std::regex_replace(tex, std::regex("^(?!^Data\\\\)", std::regex_constants::icase), "Data\\");
+			if (!dataPrefix.empty())
+				tex = dataPrefix + tex;
+			else
+				tex = std::regex_replace(tex, std::regex("^(?!^Data\\\\)", std::regex_constants::icase), "Data\\");
 		}
 		return tex;
 	};
